@@ -28,7 +28,7 @@ Proof.
 Qed.
 
 Lemma wrap_mod_pow2 x k : k <= 64 -> (wrap x) mod 2 ^ k = x mod 2 ^ k.
-Proof. intros Hk. unfold wrap. rewrite W_eq. apply mod_mod_pow2; assumption. Qed.
+Proof. intros Hk. rewrite wrap_mod. rewrite W_eq. apply mod_mod_pow2; assumption. Qed.
 
 Lemma land_mask x h : h <= 63 -> and64 x (mask h) = x mod 2 ^ (h + 1).
 Proof. intros Hh. unfold and64. rewrite mask_spec by assumption. apply land_ones_mod. Qed.
@@ -36,7 +36,7 @@ Proof. intros Hh. unfold and64. rewrite mask_spec by assumption. apply land_ones
 Lemma shl_mod x s : s < 64 -> shl x s = (x * 2 ^ s) mod W.
 Proof.
   intros Hs. unfold shl. destruct (N.leb_spec 64 s) as [H|H]; [lia|].
-  rewrite N.shiftl_mul_pow2. reflexivity.
+  rewrite N.shiftl_mul_pow2. apply wrap_mod.
 Qed.
 
 Lemma shl_big x s : 64 <= s -> shl x s = 0.
@@ -46,7 +46,7 @@ Lemma shl_land_mask x s h : s < 64 -> h <= 63 ->
   and64 (shl x s) (mask h) = (x * 2 ^ s) mod 2 ^ (h + 1).
 Proof.
   intros Hs Hh. rewrite land_mask by assumption. rewrite shl_mod by assumption.
-  apply wrap_mod_pow2. lia.
+  rewrite <- wrap_mod. apply wrap_mod_pow2. lia.
 Qed.
 
 (** The shape of a row start, with all powers expressed by [A = 2^(h-r)] and [B = 2^r]. *)
